@@ -121,6 +121,13 @@ func runC16(c *Ctx) {
 				faults = append(faults, fault{Kind: kinds[srng.Intn(len(kinds))], Nth: 1 + srng.Intn(3), K: srng.Intn(2)})
 			}
 		}
+		if s%3 == 2 {
+			// validation-failure storm: from some request on, every data request is
+			// damaged in transit, so every poll verdict is "failed" and the retry
+			// channel (capacity 2 x threads) fills while the stop is in progress
+			conf.Threads = 1 + srng.Intn(2)
+			faults = []fault{{Kind: fCorrupt, Nth: 1 + srng.Intn(4), K: 0, Repeat: 100000}}
+		}
 		// reference run: count boundary actions of an uninterrupted one-shot run
 		// (every child runs it, so that all agree on the range of stop points;
 		// only the owner of the index counts it as an evaluation)
@@ -181,6 +188,7 @@ func c16Run(c *Ctx, idx int, seed int64, sc *c16Scenario, dir string, count bool
 	var stopAt time.Duration
 	scansBegunBeforeStop := 0
 	positive := map[string]bool{} // names with a positive poll answer handed to the broker
+	lastCode := map[string]int{}  // the latest poll verdict per name
 	var s *sender
 	sendStop := func() {
 		if stopped {
@@ -207,6 +215,7 @@ func c16Run(c *Ctx, idx int, seed int64, sc *c16Scenario, dir string, count bool
 		if code == sts.ConfirmPassed || code == sts.ConfirmWaiting {
 			positive[name] = true
 		}
+		lastCode[name] = code
 		mu.Unlock()
 	}
 	s = w.startSender()
@@ -258,10 +267,28 @@ func c16Run(c *Ctx, idx int, seed int64, sc *c16Scenario, dir string, count bool
 
 	onDisk := w.cacheOnDisk()
 	final := w.finalFiles()
+	nFailedVerdicts := 0
+	for _, cd := range lastCode {
+		if cd == sts.ConfirmFailed {
+			nFailedVerdicts++
+		}
+	}
 	if sc.Graceful && scansBegunBeforeStop > 0 {
 		// every file found by a scan that began before the stop: delivered, confirmed, recorded
 		for _, f := range sc.Files {
 			v := w.latestVersion(f.Name)
+			if lastCode[f.Name] == sts.ConfirmFailed {
+				// polled to a verdict, and the verdict was "failed": the stop does not wait for another transmission
+				res.Count("graceful_exit_with_failed_verdict", 1)
+				continue
+			}
+			if lastCode[f.Name] == sts.ConfirmWaiting && nFailedVerdicts > 0 && final[targetName(w, f.Name)] == "" {
+				// validated and recorded; the receiver holds it behind a predecessor whose verdict was "failed"
+				if _, err := os.Stat(filepath.Join(w.recv.StageDir, f.Name+".wait")); err == nil {
+					res.Count("graceful_exit_with_file_held_behind_failed_predecessor", 1)
+					continue
+				}
+			}
 			if final[targetName(w, f.Name)] != v.MD5 {
 				viol("graceful-completeness", "graceful-undelivered", fmt.Sprintf("graceful stop at action %d: %s was found by a scan begun before the stop but is not in the final directory when Start returns", sc.StopAt, f.Name))
 				break
@@ -297,6 +324,15 @@ func c16Run(c *Ctx, idx int, seed int64, sc *c16Scenario, dir string, count bool
 		}
 		viol("confirmed-recorded", "confirmed-unrecorded", fmt.Sprintf("%s: positive poll answer, source file gone, but the persisted queue cache still says not done", name))
 		break
+	}
+	nFailed := 0
+	for _, cd := range lastCode {
+		if cd == sts.ConfirmFailed {
+			nFailed++
+		}
+	}
+	if nFailed > 2*sc.Conf.Threads {
+		res.Count("stops_with_more_failed_verdicts_than_retry_capacity", 1)
 	}
 	key := fmt.Sprintf("%d/%v/%d/%d/%v", len(sc.Files), sc.Graceful, sc.StopAt, sc.Conf.Threads, len(sc.Faults))
 	res.NonTrivial(key)
